@@ -61,6 +61,7 @@ let observe (s : state) addrs slots thashes pres : string =
   Buffer.contents b
 
 let bool_of s = (s = "1" || s = "true")
+let lastdb : (int, bytes list * bytes list) Hashtbl.t = Hashtbl.create 8
 
 (* ---- the abstract system of State/StateAbs.v, run next to the model: (re)seeded with abs_state
    whenever a StateDB has no live snapshot by construction (new, reopen, Copy destination, after
@@ -138,6 +139,8 @@ let do_op_model sid (toks : string list) : string =
                      | Panic -> "panic")
   | ["commit"; b] -> (match commit h (bool_of b) s with
                       | Ok (s', t) -> store sid s';
+                        (* node-database side (State/StateDb.v): keys Commit inserts, keys the root references *)
+                        Hashtbl.replace lastdb sid (commit_db_keys h (bool_of b) s t, refs h t);
                         commits := Array.append !commits [| t |];
                         "root " ^ render_trie t ^ " " ^ string_of_int (Array.length !commits - 1)
                       | Panic -> "panic")
@@ -173,6 +176,12 @@ let do_op sid (toks : string list) : string =
 
 let handle (toks : string list) : string =
   match toks with
+  | ["dbkeys"; sid] ->
+    (match Hashtbl.find_opt lastdb (int_of_string sid) with
+     | Some (ks, rs) ->
+       let hx l = String.concat "," (List.sort_uniq compare (List.map hex_of_bytes l)) in
+       "ins=" ^ hx ks ^ " refs=" ^ hx rs
+     | None -> "none")
   | ["alive"; sid; id] ->
     (match Hashtbl.find_opt astates (int_of_string sid) with
      | Some a -> bstr (List.exists (fun (i, _) -> int_of_n i = int_of_string id) a.as_snaps)
